@@ -27,7 +27,7 @@ TAGMAP = {
                     HSLOT=["C08"], HEFFECT=["C08"], HSTALE=["C17"], STABLE=["C17"], STEP=["C09"]),
     "maplist": {t: ["C13"] for t in ("RES_GET", "EMPTY", "REFINE", "HANDLE", "HREAD", "HPOS", "HEFFECT", "STEP", "HSTALE")},
     "setlist": {t: ["C13"] for t in ("RES_GET", "EMPTY", "REFINE", "HANDLE", "HREAD", "HPOS", "HEFFECT", "STEP", "HSTALE")},
-    "seg": {"YIELD": ["C03"], "COMPLETE": ["C03"], "COPIES": ["C16"], "PLACES": ["C15"], "MATRIX": ["C15"],
+    "seg": {"YIELD": ["C03"], "COMPLETE": ["C03"], "COPIES": ["C16"], "PLACES": ["C15"], "MATRIX": ["C15", "C03"], "KEEP": ["C03"],
             "LAYOUT": ["C14"], "OUTCOME": ["C10"], "TORN": ["C18"], "CLEARED": ["C12"]},
 }
 for _k in ("maplist", "setlist"):
@@ -82,8 +82,8 @@ class Ctx:
             f.write("CHECK_DEADLOCK FALSE\n" + extra)
         return p
 
-    def model(self, name, module, consts, invariants, workers=6, want_output=False, timeout=3600):
-        cfg = self.cfg(name, consts, invariants)
+    def model(self, name, module, consts, invariants, workers=6, want_output=False, timeout=3600, view=True):
+        cfg = self.cfg(name, consts, invariants, view=view)
         r = tlc_model(module, cfg, self.path("meta-" + name), workers=workers, want_output=want_output, timeout=timeout)
         r["name"] = name
         r["consts"] = consts
@@ -119,7 +119,7 @@ class Ctx:
                "status": h["status"], "accepted": v["accepted"], "nviol": len(v["viols"]), "wall": v["wall"], "trace": out,
                "segments": 0, "mine": []}
         lines = read_events(out)
-        res["segments"] = sum(1 for ln in lines if ln.startswith('{"ev":"reset"') or ln.startswith('{"ev":"load"'))
+        res["segments"] = sum(1 for ln in lines if ln.startswith(vlib.SEG_STARTS))
         res["sample"] = sample_of(lines)
         tagmap = TAGMAP[kind_of(coll)]
         first_viol_in_segment = {}
@@ -192,7 +192,8 @@ class Ctx:
         if not samples:
             samples = [{"model": m["name"], "constants": m["consts"]} for m in self.models[:3]]
         ev = {
-            "property_id": self.pid, "tier": self.tier, "seed": self.seed, "level": "model_checking",
+            "property_id": self.pid, "tier": self.tier, "seed": self.seed,
+            "level": "fault_enumeration" if self.pid == "C18" else "model_checking",
             "coverage": {
                 "states": states, "transitions": trans,
                 "traces_validated_against_impl": sum(t["segments"] for t in self.traces),
@@ -369,7 +370,448 @@ def plan_key_semantics(ctx):
         ASSUME_COMMON)
 
 
-PLANS = {"C01": plan_key_semantics, "C06": plan_key_semantics, "C20": plan_key_semantics}
+
+ORD_TREES_MAP = ["maptree-i32", "maptree-str"]
+ORD_TREES_SET = ["settree-i32", "settree-str"]
+ORD_LISTS = ["maplist-i32", "maplist-str", "setlist-i32", "setlist-str"]
+
+COVER_RULE = ("model: every history over the key universe (fixpoint over canonical arena states, unbounded length); conformance: "
+              "TLC-generated cover paths replayed on the real collection with every in-contract call of the alphabet fanned out "
+              "from each covered state, plus seeded random histories; distinct_nontrivial counts distinct (canonical physical "
+              "pre-state, call) pairs executed on the real code")
+
+
+def plan_ord(ctx, colls):
+    """C04, C05, C08, C09, C17 on the map / set trees"""
+    q = ctx.quick()
+    ctx.model("mcord-a", "MCOrd", ord_consts(6 if q else 8), ORD_INV)
+    ctx.model("mcord-w", "MCOrd", ord_consts(4 if q else 5, writes=True), ORD_INV)
+    if not q:
+        ctx.model("mcord-c1", "MCOrd", ord_consts(7, cap=1), ORD_INV)
+        ctx.model("mcord-c9", "MCOrd", ord_consts(7, cap=9), ORD_INV)
+    futs = ord_cover_jobs(ctx, colls, 5 if q else 6, [0], 2 if q else 6, limit=120 if q else None)
+    if not q:
+        futs += ord_cover_jobs(ctx, colls, 4, [1, 9], 2, writes=True)
+    futs += random_jobs(ctx, colls, 2 if q else 8, {"keys": 10, "steps": 2500 if q else 12000, "seglen": 90})
+    futs += random_jobs(ctx, colls, 1 if q else 3, {"keys": 40, "steps": 1200 if q else 6000, "seglen": 400}, tag="-wide")
+    ctx.collect(futs)
+    return ctx.finish(COVER_RULE, ASSUME_COMMON)
+
+
+def plan_c04(ctx):
+    return plan_ord(ctx, ORD_TREES_MAP)
+
+
+def plan_c05(ctx):
+    return plan_ord(ctx, ORD_TREES_SET)
+
+
+def plan_c08(ctx):
+    return plan_ord(ctx, ORD_TREES_MAP + ORD_TREES_SET)
+
+
+def plan_c09(ctx):
+    return plan_ord(ctx, ORD_TREES_SET)
+
+
+def plan_c17(ctx):
+    return plan_ord(ctx, ["maptree-i32", "settree-str"] if ctx.quick() else ORD_TREES_MAP + ORD_TREES_SET)
+
+
+def plan_structure(ctx):
+    """C02, C11: every logged state of all three trees"""
+    q = ctx.quick()
+    ctx.model("mcord-a", "MCOrd", ord_consts(6 if q else 9), ORD_INV)
+    ctx.model("mckey-a", "MCKey", key_consts(3 if q else 4, 3), KEY_INV)
+    if not q:
+        for cap in (1, 8, 9, 32):
+            ctx.model(f"mcord-c{cap}", "MCOrd", ord_consts(7, cap=cap), ORD_INV)
+        ctx.model("mckey-c9", "MCKey", key_consts(3, 3, cap=9), KEY_INV)
+        ctx.model("mckey-b", "MCKey", key_consts(5, 2), KEY_INV)
+    futs = ord_cover_jobs(ctx, ["maptree-i32", "settree-i32"], 5 if q else 6, [0] if q else [0, 9], 2 if q else 4,
+                          limit=100 if q else None)
+    futs += key_cover_jobs(ctx, ["keytree"], 3, 3, [0] if q else [0, 9], 2 if q else 4, export=0, limit=120 if q else None)
+    trees = ["maptree-i32", "settree-str", "keytree"] if q else ["maptree-i32", "maptree-str", "settree-i32", "settree-str", "keytree"]
+    for coll in trees:
+        base = {"keys": 12, "steps": 2000 if q else 10000, "seglen": 150}
+        if coll == "keytree":
+            base["tspan"] = 6
+        futs += random_jobs(ctx, [coll], 1 if q else 4, base)
+        wide = {"keys": 64, "steps": 1200 if q else 8000, "seglen": 600 if q else 4000}
+        if coll == "keytree":
+            wide["tspan"] = 40
+        futs += random_jobs(ctx, [coll], 1 if q else 3, wide, tag="-churn")
+    ctx.collect(futs)
+    return ctx.finish(COVER_RULE + "; structure predicates (WellFormed / PoolOK / growth bound) are evaluated by TLC on the "
+                      "snapshot of every logged state", ASSUME_COMMON)
+
+
+def plan_lists(ctx):
+    """C13: the three sorted-list twins against the same layer-0 semantics"""
+    q = ctx.quick()
+    ctx.model("mcord-a", "MCOrd", ord_consts(5 if q else 7), ORD_INV)
+    ctx.model("mckey-a", "MCKey", key_consts(3, 3), KEY_INV)
+    ctx.model("mclist", "MCKeyList", {"Keys": keyset(3), "MaxTime": 3 if q else 4}, ["MinExpOK", "Refinement"])
+    futs = ord_cover_jobs(ctx, ORD_LISTS if not q else ["maplist-i32", "setlist-str"], 4, [0], 1 if q else 2, limit=40 if q else None)
+    futs += key_cover_jobs(ctx, ["keylist"], 3, 3 if not q else 2, [0], 2 if q else 4, limit=60 if q else 300)
+    futs += random_jobs(ctx, ORD_LISTS, 1 if q else 6, {"keys": 10, "steps": 2000 if q else 10000, "seglen": 90})
+    futs += random_jobs(ctx, ["keylist"], 2 if q else 8, {"keys": 8, "tspan": 5, "steps": 2500 if q else 12000, "seglen": 70})
+    ctx.collect(futs)
+    return ctx.finish(COVER_RULE + "; the lists ship no snapshot: results are checked call by call and the full observable "
+                      "contents (get_value of every key of the universe, is_empty) periodically", ASSUME_COMMON)
+
+
+def plan_export(ctx):
+    """C07 (and the contents part of C19)"""
+    q = ctx.quick()
+    ctx.model("mckey-a", "MCKey", key_consts(3 if q else 4, 3), KEY_INV)
+    if not q:
+        ctx.model("mckey-b", "MCKey", key_consts(5, 2), KEY_INV)
+    futs = key_cover_jobs(ctx, ["keytree", "keylist"], 3, 3, [0], 2 if q else 4, fanout=1, export=2, limit=200 if q else None)
+    futs += random_jobs(ctx, ["keytree", "keylist"], 2 if q else 8, {"keys": 8, "tspan": 5, "steps": 2500 if q else 12000, "seglen": 25})
+    futs += random_jobs(ctx, ["keytree", "keylist"], 1 if q else 4, {"keys": 40, "tspan": 12, "steps": 2000 if q else 10000, "seglen": 120}, tag="-wide")
+    if ctx.pid == "C19":
+        futs += [ctx.submit(f"sizes-{c}", c, "sizes", {"max": 100000 if q else 2000000}) for c in ("keytree", "keylist")]
+    ctx.collect(futs)
+    return ctx.finish("model: the export (explicit-stack traversal) from every reachable state at every admissible time; conformance: "
+                      "every covered state of the real tree and list is exported at every time now..MaxTime (the path is replayed for "
+                      "each export because the call consumes the collection), random histories end every segment with an export"
+                      + ("; sizes driver: 0..64 entries in ascending / descending / shuffled order, then powers of ten, capacity logged"
+                         if ctx.pid == "C19" else ""), ASSUME_COMMON)
+
+
+def plan_faults(ctx):
+    """C18: callback panics"""
+    q = ctx.quick()
+    ctx.model("mckey-f", "MCKey", key_consts(3, 2 if q else 3, faults=True), KEY_INV)
+    ctx.model("mcord-a", "MCOrd", ord_consts(5 if q else 7), ORD_INV)
+    futs = key_cover_jobs(ctx, ["keytree", "keylist"], 3, 2, [0], 2 if q else 4, driver="faults", limit=24 if q else 200,
+                          flags=("fault",), max_events=60000 if q else 600000)
+    ords = ["maptree-i32", "settree-str", "maplist-str", "setlist-i32"] if q else ORD_TREES_MAP + ORD_TREES_SET + ORD_LISTS
+    futs += ord_cover_jobs(ctx, ords, 4, [0], 1 if q else 2, driver="faults", limit=12 if q else 80, flags=("fault",),
+                           max_events=40000 if q else 400000)
+    futs += random_jobs(ctx, ["keytree", "keylist"], 1 if q else 4, {"keys": 8, "tspan": 5, "steps": 2500 if q else 10000, "seglen": 70, "inject": 1},
+                        flags=("fault",), tag="-inject")
+    futs += random_jobs(ctx, ords, 1 if q else 3, {"keys": 10, "steps": 2000 if q else 8000, "seglen": 90, "inject": 1}, flags=("fault",), tag="-inject")
+    futs += seg_random_jobs(ctx, 1 if q else 4, 600 if q else 5000, inject=1, flags=("fault",), tag="-inject")
+    ctx.collect(futs)
+    return ctx.finish("fault enumeration validated by TLC: for every covered state, every call of the alphabet and every callback "
+                      "index j the call makes, the j-th user callback (Ord::cmp, comparator closure, key accessor, expiration "
+                      "accessor) panics; the snapshot after catch_unwind must be a valid tree whose contents are those before or "
+                      "after the call, and the collection is observed and mutated again afterwards; model: PanicAt successors of "
+                      "every call of the key tree", ASSUME_COMMON)
+
+
+
+# ---- segment tree ----------------------------------------------------------------------------
+SEG_DOMAINS = [("seg-i32", 0, 31), ("seg-i32", -7, 9), ("seg-i32", 0, 128), ("seg-i32", -10240, 15360),
+               ("seg-i32", 0, 1048573), ("seg-i32", -2147483648, 2147483647), ("seg-u32", 5, 4000000000),
+               ("seg-i64", -4611686018427387904, 4611686018427387902), ("seg-i64", -1000, 99)]
+
+
+def seg_random_jobs(ctx, nseeds, steps, inject=0, flags=(), tag=""):
+    futs = []
+    for di, (coll, lo, hi) in enumerate(SEG_DOMAINS):
+        for sd in range(nseeds):
+            futs.append(ctx.submit(f"random{tag}-{coll}-d{di}-{sd}", coll, "random",
+                                   {"lo": lo, "hi": hi, "seed": ctx.seed * 1000 + sd, "steps": steps, "seglen": 60, "inject": inject}, flags=flags))
+    return futs
+
+
+def seg_matrix_jobs(ctx, shards):
+    step = (528 + shards - 1) // shards
+    return [ctx.submit(f"matrix-{i}", "seg-i32", "matrix", {"from": i * step, "to": min(528, (i + 1) * step)}) for i in range(shards)]
+
+
+def layout_domains(thorough):
+    small = []
+    for lo in ((-70, 0, 5) if thorough else (-70, 0)):
+        for ln in (list(range(1, 41)) + [63, 64, 65, 100, 127, 128, 129, 255, 256, 257, 300]):
+            small.append((lo, lo + ln - 1))
+    i32 = list(small)
+    for k in range(9, 32):
+        for ln in (2 ** k - 1, 2 ** k, 2 ** k + 1):
+            for lo in ((-2 ** 31, -1) if thorough else (-2 ** 31,)):
+                if lo + ln - 1 <= 2 ** 31 - 1:
+                    i32.append((lo, lo + ln - 1))
+    i32.append((-2 ** 31, 2 ** 31 - 1))
+    u32 = [(0, ln - 1) for ln in (16, 17, 33, 2 ** 20 + 1, 2 ** 31, 2 ** 31 + 1, 2 ** 32 - 1, 2 ** 32)] + [(4294967000, 4294967295)]
+    i64 = [(-2 ** 62, 2 ** 62 - 2), (-2 ** 63, -2), (0, 2 ** 63 - 2), (2 ** 40, 2 ** 40 + 16), (-2 ** 63, -2 ** 63 + 15)]
+    for k in (33, 40, 47, 55, 62):
+        for ln in (2 ** k - 1, 2 ** k, 2 ** k + 1):
+            i64.append((-2 ** 61, -2 ** 61 + ln - 1))
+    return {"seg-i32": i32, "seg-u32": u32, "seg-i64": i64}
+
+
+def layout_jobs(ctx, thorough):
+    futs = []
+    for coll, doms in layout_domains(thorough).items():
+        n = 4 if coll == "seg-i32" else 1
+        for i in range(n):
+            part = doms[i::n]
+            futs.append(ctx.submit(f"layout-{coll}-{i}", coll, "layout", {"domains": ",".join(f"{a}:{b}" for a, b in part)}))
+    return futs
+
+
+def seg_models(ctx, dynamic=True, heap=False, layout=False):
+    q = ctx.quick()
+    if dynamic:
+        ctx.model("mcseg-h2", "MCSeg", {"H": 2, "MaxVals": 2 if q else 3, "MaxTime": 2}, ["Inv"], view=False, workers=8)
+        if not q:
+            ctx.model("mcseg-h3", "MCSeg", {"H": 3, "MaxVals": 2, "MaxTime": 2}, ["Inv"], view=False, workers=8)
+    if heap:
+        ctx.model("mcheap-h5", "MCHeap", {"H": 5}, ["Inv"], view=False, workers=8)
+        if not q:
+            ctx.model("mcheap-h4", "MCHeap", {"H": 4}, ["Inv"], view=False, workers=1)
+    if layout:
+        ctx.model("mclayout", "MCLayout", {"MaxLen": 300 if q else 1200, "BigExps": "{9, 10, 12, 16, 20, 24, 29, 30}"}, ["Inv"], view=False, workers=1)
+
+
+SEG_RULE = ("model: every history of inserts / iterator creation / next / drop / clear within the constants (heap height H, number of "
+            "values, times); conformance on the real 32-bucket tree: seeded random histories over nine domains (17 points to 2^63-1 "
+            "points, negative and unsigned) with bucket-edge coordinates, e == t, partial consumption and clears, validated by TLC "
+            "against SegRef with buckets from SegLayout and places from SegHeap")
+
+
+def plan_c03(ctx):
+    q = ctx.quick()
+    seg_models(ctx)
+    futs = seg_random_jobs(ctx, 1 if q else 6, 1500 if q else 8000) + seg_matrix_jobs(ctx, 2 if q else 4)
+    ctx.collect(futs)
+    return ctx.finish(SEG_RULE + "; plus the complete 528 x 528 (insert range, query range) matrix on the domain [0,31]", ASSUME_COMMON, )
+
+
+def plan_c16(ctx):
+    q = ctx.quick()
+    seg_models(ctx)
+    ctx.collect(seg_random_jobs(ctx, 1 if q else 6, 2500 if q else 10000))
+    return ctx.finish(SEG_RULE + "; after every completely consumed whole-domain query the stored copies (hook) must be exactly the "
+                      "copies of the values with expiration >= t", ASSUME_COMMON)
+
+
+def plan_c15(ctx):
+    q = ctx.quick()
+    seg_models(ctx, dynamic=False, heap=True)
+    futs = seg_matrix_jobs(ctx, 2 if q else 4) + seg_random_jobs(ctx, 1, 800 if q else 5000)
+    ctx.collect(futs)
+    return ctx.finish("model: complete static check for H = 5 - transcribed mask loops = declarative definitions for all 528 ranges, exact "
+                      "tiling, <= 8 places, 528 x 528 meet-iff-overlap; conformance: on a real tree over [0,31], for each of the 528 ranges "
+                      "the places that hold a copy after one insert (hook) and the 528-entry row of queries that yield it", ASSUME_COMMON,
+                      exhaustive=True)
+
+
+def plan_c14(ctx):
+    q = ctx.quick()
+    seg_models(ctx, dynamic=False, heap=not q, layout=True)
+    futs = layout_jobs(ctx, not q) + seg_random_jobs(ctx, 1, 500 if q else 3000)
+    ctx.collect(futs)
+    return ctx.finish("model: layout arithmetic over all lengths 1..MaxLen and 2^k-1, 2^k, 2^k+1 up to 2^30, with the scaling lemma; "
+                      "conformance: SegExpTree::new over a grid of i32 / u32 / i64 domains (lengths 1..40, powers of two +-1 up to 2^63-1), "
+                      "Some/None, allocated chunk count, and for lo, hi and bucket edges +-1 the place that receives a single-point insert "
+                      "and the single-point queries that see it", ASSUME_COMMON + ["wide coordinates are logged as offsets from lo shifted right by j <= Scale bits (harness arithmetic, j logged); the shift preserves buckets by the TLC-checked scaling lemma"])
+
+
+# ---- clear == new (C12) ------------------------------------------------------------------------
+def ord_suffix(rnd, keys, n):
+    present, ops = set(), []
+    for _ in range(n):
+        k = rnd.randint(1, keys)
+        c = rnd.randint(0, 9)
+        if c <= 4 and k not in present:
+            ops.append(f"i {k} {k * 1000 + rnd.randint(1, 99)}")
+            present.add(k)
+        elif c <= 6:
+            ops.append(f"d {k}")
+            present.discard(k)
+        elif c == 7 and k in present:
+            ops.append(f"dh {k}")
+            present.discard(k)
+        elif c == 8 and k in present:
+            ops.append(f"w {k} {k * 1000 + rnd.randint(1, 99)}")
+        else:
+            ops.append("q")
+    ops.append("q")
+    return ops
+
+
+def key_suffix(rnd, keys, n, tspan=4):
+    live, ops, t = {}, [], 0
+    for _ in range(n):
+        if rnd.random() < 0.3:
+            t += rnd.randint(0, 2)
+        k = rnd.randint(1, keys)
+        c = rnd.randint(0, 9)
+        if c <= 3 and not (k in live and live[k] > t):
+            e = t + rnd.randint(0, tspan)
+            ops.append(f"i {k} {e} {k * 1000 + (e % 100) * 10 + rnd.randint(0, 9)} {t}")
+            live[k] = e
+        elif c <= 5:
+            ops.append(f"le {t} {rnd.randint(0, keys + 1)}")
+        elif c == 6:
+            ops.append(f"lt {t} {rnd.randint(0, keys + 1)}")
+        elif c == 7:
+            ops.append(f"by {t} {rnd.randint(0, 2 * keys + 2)}")
+        elif c == 8:
+            ops.append(f"get {t} {k}")
+        else:
+            ops.append("e")
+    for k in range(0, keys + 2):
+        ops.append(f"get {t} {k}")
+    ops.append("e")
+    return ops
+
+
+CMP_KEYS = ("op", "k", "e", "v", "t", "p", "d", "rk", "rv", "out", "take", "a", "b")
+
+
+def norm_event(ln, seg=False):
+    d = json.loads(ln)
+    o = {k: d[k] for k in CMP_KEYS if k in d}
+    if "res" in d:
+        if d.get("op") in ("fil", "filby", "after", "before"):
+            o["res_is_sentinel"] = d["res"] == -1
+        elif seg and isinstance(d["res"], list):
+            o["res"] = len(d["res"])        # fresh ids differ; the bag of yielded ranges is compared through the reference
+        else:
+            o["res"] = d["res"]
+    return o
+
+
+def twin_compare(ctx, res, seg=False):
+    """line-by-line comparison of `prefix; clear; suffix` with `suffix` on a fresh instance"""
+    lines = read_events(res["trace"])
+    starts = [i for i, ln in enumerate(lines) if ln.startswith(vlib.SEG_STARTS)] + [len(lines)]
+    segs = [lines[starts[i]:starts[i + 1]] for i in range(len(starts) - 1)]
+    keep = [i for i, sg in enumerate(segs) if len(sg) > 1]      # a session starts with an empty segment
+    starts = [starts[i] for i in keep] + [len(lines)]
+    segs = [segs[i] for i in keep]
+    bad = 0
+    for i in range(0, len(segs) - 1, 2):
+        a, b = segs[i], segs[i + 1]
+        clr = max((j for j, ln in enumerate(a) if '"op":"clear"' in ln), default=None)
+        if clr is None:
+            raise ToolError("twin: no clear in the first segment")
+        ea = [norm_event(x, seg) for x in a[clr + 1:]]
+        eb = [norm_event(x, seg) for x in b[1:]]
+        if ea != eb:
+            j = next((j for j in range(min(len(ea), len(eb))) if ea[j] != eb[j]), min(len(ea), len(eb)))
+            x = {"tag": "TWIN", "l": starts[i] + clr + 2 + j, "seg": starts[i] + 1,
+                 "info": ["after clear", ea[j] if j < len(ea) else None, "fresh instance", eb[j] if j < len(eb) else None]}
+            res["mine"].append(x)
+            ctx.viols.append((res, x))
+            bad += 1
+    ctx.notes.append(f"{res['name']}: {len(segs) // 2} twin pairs compared, {bad} differ")
+
+
+def plan_c12(ctx):
+    import random
+    q = ctx.quick()
+    rnd = random.Random(ctx.seed)
+    ctx.model("mcord-a", "MCOrd", ord_consts(5 if q else 7), ORD_INV)
+    ctx.model("mckey-a", "MCKey", key_consts(3, 3), KEY_INV)
+    ctx.model("mclist", "MCKeyList", {"Keys": keyset(3), "MaxTime": 3}, ["MinExpOK", "Refinement"])
+    seg_models(ctx)
+    jobs = []
+    # ordered map / set
+    opaths = ctx.cover("cover-ord-k5c0", "MCOrd", ord_consts(5, 0, True), ORD_INV)
+    rnd.shuffle(opaths)
+    grow = []
+    for _ in range(3):
+        ks = list(range(1, 31))
+        rnd.shuffle(ks)
+        grow.append("0|" + ";".join(f"i {k} {k * 1000 + 1}" for k in ks[:rnd.randint(9, 30)]) + ";")
+    for coll in ORD_TREES_MAP + ORD_TREES_SET + ORD_LISTS:
+        pf = ctx.path(f"twin-{coll}.txt")
+        with open(pf, "w") as f:
+            for p in grow + opaths[:25 if q else 150] + ["0|", "0|c;"]:
+                for _ in range(2 if q else 3):
+                    sfx = ";".join(ord_suffix(rnd, 6, rnd.randint(2, 9)))
+                    cap = p.split("|")[0]
+                    f.write(f"{p}c;{sfx}\n{cap}|{sfx}\n")
+        jobs.append((coll, "paths", {"paths": pf, "keys": 6, "fanout": 0}, False))
+    # expiring-key tree / list (the clock restarts at 0 after the clear)
+    kpaths = ctx.cover("cover-key-k3t3c0", "MCKey", key_consts(3, 3, 0), KEY_INV)
+    rnd.shuffle(kpaths)
+    kgrow = ["0|" + ";".join(f"i {k} {rnd.randint(3, 9)} {k * 1000 + 1} 3" for k in range(1, 21)) + ";"]
+    for coll in ("keytree", "keylist"):
+        pf = ctx.path(f"twin-{coll}.txt")
+        with open(pf, "w") as f:
+            for p in kgrow + kpaths[:40 if q else 300] + ["0|", "0|c;"]:
+                for _ in range(2 if q else 3):
+                    sfx = ";".join(key_suffix(rnd, 4, rnd.randint(2, 10)))
+                    cap = p.split("|")[0]
+                    f.write(f"{p}c;{sfx}\n{cap}|{sfx}\n")
+        jobs.append((coll, "paths", {"paths": pf, "keys": 4, "tmax": 3, "fanout": 0, "export": 0}, False))
+    # segment tree
+    for di, (coll, lo, hi) in enumerate(SEG_DOMAINS[:3] + SEG_DOMAINS[3:(4 if q else 9)]):
+        pf = ctx.path(f"twin-{coll}-d{di}.txt")
+        span = hi - lo
+
+        def pt():
+            return lo + (rnd.randint(0, 32) * span) // 32 if rnd.random() < 0.5 else rnd.randint(lo, hi)
+
+        def hist(n, t0):
+            ops, t = [], t0
+            for _ in range(n):
+                a, b = sorted((pt(), pt()))
+                if rnd.random() < 0.55:
+                    ops.append(f"i {a} {b} {t + rnd.randint(-1, 3)}")
+                else:
+                    t += rnd.randint(0, 1)
+                    ops.append(f"q {a} {b} {t} {rnd.choice([-1, -1, -1, 1, 2])}")
+            ops.append(f"q {lo} {hi} {t} -1")
+            return ops
+        with open(pf, "w") as f:
+            for _ in range(12 if q else 80):
+                pre = hist(rnd.randint(0, 12), rnd.randint(0, 3))
+                sfx = hist(rnd.randint(1, 8), 0)
+                f.write(f"n {lo} {hi};" + ";".join(pre) + ";c;" + ";".join(sfx) + "\n")
+                f.write(f"n {lo} {hi};" + ";".join(sfx) + "\n")
+        jobs.append((coll, "script", {"file": pf}, True))
+    futs = [(ctx.submit(f"twin-{c}-{i}", c, d, p, flags=("twin",)), sg) for i, (c, d, p, sg) in enumerate(jobs)]
+    for f, sg in futs:
+        r = f.result()
+        ctx.traces.append(r)
+        for x in r["mine"]:
+            ctx.viols.append((r, x))
+        twin_compare(ctx, r, seg=sg)
+    return ctx.finish("model: clear leads every reachable state back to the initial abstract state (asserted on every clear transition); "
+                      "conformance: for covered states P (TLC cover paths, arena-growth prefixes, the empty collection, a double clear) and "
+                      "seeded random suffixes S, `P; clear; S` and `S` on a newly constructed instance are both validated by TLC against the "
+                      "reference and compared with each other result by result (handles compared through the entries they read); all seven "
+                      "collections, the clock restarting at 0 after the clear", ASSUME_COMMON)
+
+
+def plan_c10(ctx):
+    """no panic / abort / hang inside the contract: the union of all alphabets on all seven collections"""
+    q = ctx.quick()
+    ctx.model("mcord-a", "MCOrd", ord_consts(6 if q else 8), ORD_INV)
+    ctx.model("mckey-a", "MCKey", key_consts(3, 3), KEY_INV)
+    ctx.model("mclist", "MCKeyList", {"Keys": keyset(3), "MaxTime": 3}, ["MinExpOK", "Refinement"])
+    seg_models(ctx, heap=True, layout=True)
+    allord = ORD_TREES_MAP + ORD_TREES_SET + ORD_LISTS
+    futs = ord_cover_jobs(ctx, ["maptree-i32", "settree-i32", "setlist-i32", "maplist-str"] if q else allord, 4 if q else 5, [0, 1] if q else [0, 1, 8, 33], 1,
+                          limit=40 if q else None)
+    futs += key_cover_jobs(ctx, ["keytree", "keylist"], 3, 2 if q else 3, [0] if q else [0, 1, 33], 1 if q else 2, limit=50 if q else 400)
+    futs += random_jobs(ctx, allord, 1 if q else 4, {"keys": 12, "steps": 1500 if q else 8000, "seglen": 120})
+    futs += random_jobs(ctx, ["keytree", "keylist"], 1 if q else 4, {"keys": 10, "tspan": 6, "steps": 2000 if q else 10000, "seglen": 60})
+    futs += seg_random_jobs(ctx, 1 if q else 3, 800 if q else 5000)
+    futs += layout_jobs(ctx, not q)
+    futs += [ctx.submit(f"sizes-{c}", c, "sizes", {"max": 10000 if q else 1000000}) for c in ("keytree", "keylist")]
+    ctx.collect(futs)
+    return ctx.finish("model: every arena / chunk access of the layer-1 models goes through an asserting accessor and every debug_assert! of the "
+                      "code is an Assert, so an out-of-bounds index or failed assertion in the modelled operations is a TLC error; conformance: "
+                      "every driver (cover fan-out incl. both ends of set walks, exports after lazy removals, random churn, all seg domains, "
+                      "layout grid, capacity hints 0/1/8/33) runs under catch_unwind in a build with debug assertions, overflow checks and unsafe "
+                      "precondition checks with a watchdog; a call that panics, aborts or does not return is an event no action of the "
+                      "specification explains", ASSUME_COMMON)
+
+
+PLANS = {"C01": plan_key_semantics, "C06": plan_key_semantics, "C20": plan_key_semantics,
+         "C02": plan_structure, "C11": plan_structure, "C04": plan_c04, "C05": plan_c05, "C08": plan_c08,
+         "C09": plan_c09, "C17": plan_c17, "C13": plan_lists, "C07": plan_export, "C19": plan_export, "C18": plan_faults,
+         "C03": plan_c03, "C14": plan_c14, "C15": plan_c15, "C16": plan_c16, "C12": plan_c12, "C10": plan_c10}
+
 
 
 def run_property(pid, tier, seed):
